@@ -35,6 +35,15 @@ OWNER = [
     ('mchap.io.vcf.', ['C07']),
     ('mchap.application.find_snvs.', ['C19']),
     ('mchap.application.atomize.', ['C20']),
+    ('mchap.application.baseclass.', ['C07']),
+    ('mchap.application.assemble.', ['C13']),
+    ('mchap.application.call_exact.', ['C03']),
+    ('mchap.application.call_pedigree.', ['C18']),
+    ('mchap.application.call_baseclass.', ['C12']),
+    ('mchap.application.call.', ['C02']),
+    ('mchap.mset.', ['C14']),
+    ('mchap.encoding.', ['C06']),
+    ('mchap.combinatorics.', ['C11']),
 ]
 
 
